@@ -782,7 +782,12 @@ type judge struct {
 // differently from the lookup by dv.ToStore, for a Leave step that is finished
 // or current: a demotion that is not (or no longer) visible on dv.ToStore while
 // the two lookups disagree on whether "the peer still exists".
-func leaveTrigger(o *opRec, r *simkit.Region) bool {
+//
+//	under: the lookup hits an unrelated peer although the demoted peer is gone:
+//	       the Leave step is counted as 0 instead of n (a false stale is possible)
+//	over:  the lookup finds nothing although the peer is still there and not yet
+//	       demoted: the Leave step is counted as n instead of 0 (a stale operator may survive)
+func leaveTrigger(o *opRec, r *simkit.Region) (under, over bool) {
 	n := o.next(r)
 	for i, st := range o.steps {
 		if i > n {
@@ -800,22 +805,24 @@ func leaveTrigger(o *opRec, r *simkit.Region) bool {
 		if !promoted {
 			continue // both formulas say 0
 		}
+		// what the two lookups make of this Leave step (n = counted, 0 = not counted)
+		asWritten, asMeant := true, true
 		for _, dv := range lv.DemoteVoters {
 			p := r.PeerOnStore(dv.ToStore)
 			if p != nil && p.ID == dv.PeerID && p.Role == simkit.Learner {
-				continue // demotion visible: both formulas count it
+				continue // demotion visible: counted either way
 			}
-			byStore := p != nil
-			byPeerIDAsStore := r.PeerOnStore(dv.PeerID) != nil
-			if byStore != byPeerIDAsStore {
-				return true
+			if r.PeerOnStore(dv.PeerID) != nil { // GetStorePeer(dv.PeerID): peer id used as store id
+				asWritten = false
 			}
-			if byStore {
-				break // both formulas return 0 here
+			if p != nil { // GetStorePeer(dv.ToStore)
+				asMeant = false
 			}
 		}
+		under = under || (!asWritten && asMeant)
+		over = over || (asWritten && !asMeant)
 	}
-	return false
+	return under, over
 }
 
 func (w *world) heartbeat(ev *evCtx, rs *regState) {
@@ -856,11 +863,10 @@ func (w *world) preJudge(x *opRec, rs *regState) *judge {
 	if x.unsound {
 		return j
 	}
-	if !w.strict && leaveTrigger(x, r) {
-		j.excluded = true
-		return j
-	}
+	under, over := leaveTrigger(x, r)
 	if !j.foreign {
+		// known finding, under-reporting side: the operator may be cancelled although only its own steps ran
+		j.excluded = !w.strict && under
 		return j
 	}
 	// what the simulator's own/foreign tags say about conf_ver
@@ -892,6 +898,11 @@ func (w *world) preJudge(x *opRec, rs *regState) *judge {
 		if !x.executed[i] && nominalConf(st) > 0 && !vacuous(st, r) {
 			unexecConf = true
 		}
+	}
+	if delta > own && unexecConf && over && !w.strict {
+		// known finding, over-reporting side: pending demotions are counted as done, the stale operator may survive
+		j.excluded = true
+		return j
 	}
 	if delta > own && unexecConf {
 		j.mustCancel = fmt.Sprintf("conf_ver advanced by %d since the operator's snapshot, its own executed commands account for %d", delta, own)
